@@ -398,7 +398,7 @@ fn collect_items(c: &Ctx<WsClient>, mut sub: Subscription<Item>, n: usize) -> Ve
 
 pub fn check(rep: &Reporter) {
 	rep.set_rule(
-		"a fixed family of #[rpc(client, server)] declarations compiled into the harness (0–4 params; trailing Option ×1 and ×2 (also spelled core::option::Option / std::option::Option); Option in the middle; raw identifiers as by-name argument names; param_kind array/map; #[argument(rename)] to a keyword, to PascalCase, kebab-case and SCREAMING_CASE names; camelCase name; aliases; namespaces with separators `_`, `.`, `/`; sync, async, blocking; RpcResult / Result<_, ErrorObjectOwned> and error returns; subscriptions with params, Option tail, map kind, overridden notification name, aliases) served in memory and called through the generated client stubs over a real WsClient (duplex stream), a real HttpClient (bridged in process to the server's tower service), and both clients built from URLs against Server::start on a loopback socket; full product of per-type argument alphabets per method (u64/i64/u8 boundaries, f64 incl. −0.0 and 1e308, bool, all strings of length ≤ 2 over 12 (thorough 20) symbols with quotes/backslashes/NUL/controls/astral/combining characters; thorough adds a decimal ladder of 1..17 significant digits at 7 magnitudes to the f64 alphabet; vectors, nested struct with enum and map), plus hand-encoded requests for the three spellings of a trailing optional under both encodings, every alias and every namespaced name. Oracle: recorded server arguments == client arguments, client result == server return, subscription items equal and in order.",
+		"a fixed family of #[rpc(client, server)] declarations compiled into the harness (0–4 params; trailing Option ×1 and ×2 (also spelled core::option::Option / std::option::Option); Option in the middle; raw identifiers as by-name argument names; param_kind array/map; #[argument(rename)] to a keyword, to PascalCase, kebab-case and SCREAMING_CASE names; camelCase name; aliases; namespaces with separators `_`, `.`, `/`; sync, async, blocking; RpcResult / Result<_, ErrorObjectOwned> and error returns; subscriptions with params, Option tail, map kind, overridden notification name, aliases) served in memory and called through the generated client stubs over a real WsClient (duplex stream), a real HttpClient (bridged in process to the server's tower service), and both clients built from URLs against Server::start on a loopback socket; full product of per-type argument alphabets per method (u64/i64/u8 boundaries, f64 incl. −0.0 and 1e308, bool, all strings of length ≤ 2 over 12 (thorough 20) symbols with quotes/backslashes/NUL/controls/astral/combining characters; thorough adds a decimal ladder of 1..17 significant digits at 7 magnitudes to the f64 alphabet; vectors, nested struct with enum and map), plus hand-encoded requests for the three spellings of a trailing optional under both encodings, every alias and every namespaced name. Oracle: recorded server arguments == client arguments, client result == server return, subscription items equal and in order, and (raw WebSocket peer) the notification method name on the wire is the declared one incl. namespace prefix and override.",
 	);
 	rep.assume("the `programs` quantifier is covered over this fixed family of declarations only");
 	let thorough = rep.tier.thorough();
@@ -452,6 +452,57 @@ pub fn check(rep: &Reporter) {
 		drop(_e);
 		let c = Ctx { rt, client, log, _handle: handle };
 		stubs(rep, &mut local, &c, "http", &u64s, &i64s, &f64s, &strs);
+	}
+	// what the wire carries for subscriptions: the notification method name (with its namespace prefix and its override),
+	// read through a raw WebSocket peer — the jsonrpsee client routes by subscription id and never looks at it
+	{
+		let rt = srv::rt();
+		let log: Log = Arc::new(Mutex::new(Vec::new()));
+		let res: Result<(), String> = rt.block_on(async {
+			let (stop, handle) = jsonrpsee_server::stop_channel();
+			let svc = jsonrpsee_server::Server::builder().to_service_builder().build(module(&log), stop.clone());
+			let mut conn = srv::ws_connect(svc, stop).await?;
+			for (k, (request, expect_notif_method)) in [
+				(json!({"jsonrpc":"2.0","id":1,"method":"subscribe_items","params":[1,"t"]}), "items"),
+				(json!({"jsonrpc":"2.0","id":2,"method":"sub_alias","params":[1]}), "items"),
+				(json!({"jsonrpc":"2.0","id":3,"method":"subscribe_map","params":{"count":1,"tag":"m"}}), "mapitems"),
+				(json!({"jsonrpc":"2.0","id":4,"method":"dot.sub","params":[1]}), "dot.notif"),
+				(json!({"jsonrpc":"2.0","id":5,"method":"dotSubAlias","params":[1]}), "dot.notif"),
+			]
+			.into_iter()
+			.enumerate()
+			{
+				conn.send(request.to_string().as_bytes()).await?;
+				let mut sub_id: Option<Value> = None;
+				let mut seen: Option<String> = None;
+				for _ in 0..4 {
+					let Ok(Some(f)) = tokio::time::timeout(std::time::Duration::from_secs(10), conn.recv()).await else { break };
+					let v: Value = serde_json::from_slice(&f).unwrap_or(Value::Null);
+					if v["id"] == request["id"] {
+						sub_id = v.get("result").cloned();
+					} else if v.get("method").is_some() && sub_id.as_ref().map_or(true, |s| v["params"]["subscription"] == *s) {
+						seen = v["method"].as_str().map(|m| m.to_string());
+						break;
+					}
+				}
+				if seen.as_deref() != Some(expect_notif_method) {
+					rep.violation(
+						"subscription:notification-method-name",
+						&format!("subscribe via `{}`: the notification on the wire carries method {seen:?}, the declaration says `{expect_notif_method}`", request["method"].as_str().unwrap_or("")),
+						json!({"engine":"ENUM","part":"wire-names","request": request, "observed_method": seen, "expected_method": expect_notif_method}),
+					);
+				}
+				let _ = k;
+			}
+			let _ = handle.stop();
+			Ok(())
+		});
+		if let Err(e) = res {
+			rep.machinery_error(format!("C17 wire-name leg: {e}"));
+		}
+		for _ in 0..5 {
+			local.case_unique("subscription:wire-name");
+		}
 	}
 	// and once more with nothing in-process: `Server::start` on a loopback socket, the WebSocket client and the HTTP client
 	// built from URLs (their real transports: TCP connect, soketto handshake, hyper client)
